@@ -301,6 +301,8 @@ func CurveReplay(args common.Args, out *common.Out) error {
 			swRun[emulated.P256Fp, emulated.P256Fr](c, fam, &res, bad)
 		case "p384":
 			swRun[emulated.P384Fp, emulated.P384Fr](c, fam, &res, bad)
+		case "bls12377-g1", "bls12377-g2":
+			run377(c, fam, &res, bad)
 		case "tedwards-bn254":
 			// the Edwards addition law is complete: every case is in the domain, the expectation is the complete variant's
 			teRun(c, &res, bad)
